@@ -443,6 +443,7 @@ pub fn decode_sd(data: &[u8], with_fault: bool) -> SdCase {
         busy_stop_write: 0,
         stop_gap: false,
         sticky_status: false,
+        nwr_gap: false,
     };
     let mut timing = timing;
     let use_crc = d.bool();
@@ -515,6 +516,7 @@ pub fn decode_sd(data: &[u8], with_fault: bool) -> SdCase {
         timing.busy_stop_write = d.pick(&[0u16, 0, 3, 59, 12_000, 40_000]);
         timing.stop_gap = d.bool();
         timing.sticky_status = d.bool();
+        timing.nwr_gap = d.bool();
     }
     let bg_seed = match d.u8() % 8 {
         1 => 0,
